@@ -61,11 +61,14 @@ def trace_list(case, graph):
             idx += [(0, 1, 2, 3, n), (n, 2, 0, 2, n), (0, n, 1, 3, 2)]
         out = [[near[min(i, n)] for i in t] for t in idx]
         out.append([near[0], al.FAR[pos], near[n]])
+        out.append([near[0], al.FAR[pos], near[n // 2], near[n]])
+        out.append([near[0], near[n // 2], al.FAR[pos], near[n]])
         out = ms.axis_traces(graph) + out
         return out
     obs = [al.OBS[pos][1], al.OBS[pos][2], al.FAR[pos]]
     out = [list(t) for T in (2, 3) for t in itertools.product(obs, repeat=T)]
     out += [[al.OBS[pos][0]] + list(t) for t in itertools.product(obs[:2], repeat=3)]
+    out += [[obs[0], al.FAR[pos], obs[1], obs[0]], [obs[0], obs[1], al.FAR[pos], obs[0]], [al.FAR[pos], obs[0], obs[1], obs[0]]]
     if case.get("tier") == "thorough":
         out += [list(t) for t in itertools.product(obs, repeat=4)]
     return out
